@@ -62,8 +62,14 @@ func dedupSpecs(in []*Spec) []*Spec {
 // NewUniverse builds pools. nRandom random types of depth 2..3 are added to the bounded-exhaustive
 // families; witnesses of every pool type join the generic values.
 func NewUniverse(r *lib.Rng, nRandom int, maxVals int) *Universe {
+	return NewUniverseWith(r, nRandom, maxVals, nil, nil)
+}
+
+// NewUniverseWith: as NewUniverse, with additional type and value recipes joining the pools.
+func NewUniverseWith(r *lib.Rng, nRandom int, maxVals int, moreTypes []*Spec, moreValues []*VSpec) *Universe {
 	u := &Universe{}
 	specs := append([]*Spec{}, Atoms()...)
+	specs = append(specs, moreTypes...)
 	specs = append(specs, Depth1(elemAtoms())...)
 	for i := 0; i < nRandom; i++ {
 		specs = append(specs, RandomType(r, 2+r.Intn(2)))
@@ -88,6 +94,7 @@ func NewUniverse(r *lib.Rng, nRandom int, maxVals int) *Universe {
 	}
 	// values
 	vs := append([]*VSpec{}, GlobalValues()...)
+	vs = append(vs, moreValues...)
 	for _, s := range u.Specs {
 		vs = append(vs, Witnesses(s, 2)...)
 	}
